@@ -241,9 +241,13 @@ def run_check(pid, tier, seed, workers=None, cases=None, quiet=False):
     if pid == "C07":
         # hash echo: the same sample in an interpreter with another PYTHONHASHSEED; histories that touch
         # something legitimately hash-dependent are left out of the comparison by the worker
-        jobs.append(({"property": pid, "mode": "sweep", "seed": seed, "first": 0, "last": 0, "indices": echo_idx,
-                      "step": 1, "tier_cfg": cfg, "shrink_s": 0, "known": known}, 1))
-        n_extra = 1
+        hk = min(cfg.get("hash_echo", 640), n)
+        hash_idx = sorted(set(echo_idx + [int(i * n / hk) for i in range(hk)]))
+        chunks = [hash_idx[i::4] for i in range(4)]
+        for ch in chunks:
+            jobs.append(({"property": pid, "mode": "sweep", "seed": seed, "first": 0, "last": 0, "indices": ch,
+                          "step": 1, "tier_cfg": cfg, "shrink_s": 0, "known": known}, 1))
+        n_extra = len(chunks)
     # directed cases of the known-findings file
     directed = [e for e in known if e.get("directed")]
     if directed:
@@ -261,7 +265,7 @@ def run_check(pid, tier, seed, workers=None, cases=None, quiet=False):
                 harness_errors.append(l)
     sweep = results[:W]
     echo = results[W]
-    hash_echo = results[W + 1] if n_extra else []
+    hash_echo = [l for lines in results[W + 1:W + 1 + n_extra] for l in lines]
     directed_res = results[W + 1 + n_extra:]
 
     # ---- merge
@@ -361,9 +365,10 @@ def run_check(pid, tier, seed, workers=None, cases=None, quiet=False):
     hs_compared = 0
     if n_extra:
         ref_hs = {}
-        for l in echo:
-            if l.get("type") == "stats":
-                ref_hs = {int(k): v for k, v in l.get("case_digests_hs", {}).items()}
+        for lines in sweep:
+            for l in lines:
+                if l.get("type") == "stats":
+                    ref_hs.update({int(k): v for k, v in l.get("case_digests_hs", {}).items()})
         for l in hash_echo:
             if l.get("type") != "stats":
                 continue
